@@ -13,10 +13,25 @@ mark closes the latest still-open opening of that label, whatever its sign), a h
 line being an addition opened on the first line and closed on the last one.
 -/
 import Paroxy.Proofs.HintsCore2
+import Paroxy.Proofs.HintsSame
 import Paroxy.Proofs.HintsMalformed
 import Paroxy.Proofs.GlueCount
+/-
+Character classes. The classes `\w` and white space are fixed on ASCII and on `…`; for every other
+character they are the oracle parameter `O : CharOracle`, universally quantified in every theorem
+below (treatment R1): labels such as `été`, `λ`, `变量`, separators such as NBSP or U+2028 are covered,
+whatever the real engines answer for them. The concrete `example`s use `asciiOracle` or say which
+oracle they use.
+
+Limit (outside the property): `ProgramParser.__call__` consumes `program.deletion` IN PLACE
+(`list.remove`); parsing the same `Program` object a second time finds the deletions already
+consumed and deletes nothing. The model returns the schedule left over (`(parse …).2`); the
+theorems are about one call on a fresh `get_program` result.
+-/
 namespace Paroxy.Props.C12
 open Paroxy Paroxy.Hints Paroxy.Glue
+
+variable {O : CharOracle}
 
 /-! ## Round trip: decorate → `get_program` -/
 
@@ -24,8 +39,8 @@ open Paroxy Paroxy.Hints Paroxy.Glue
 trailing white space and without any look-alike of the marker (`(?i)#\s*paroxython\s*:`), not blank
 when they carry hints; labels start with a word character, contain neither white space nor `#`,
 do not end with an ellipsis. -/
-def linesOk (d : Decorated) : Bool :=
-  (codeLines d).all okCode && (wholeLabels d).all cleanLabel && looseOk d
+def linesOk (O : CharOracle) (d : Decorated) : Bool :=
+  (codeLines d).all (okCode O) && (wholeLabels d).all (cleanLabel O) && (looseOk O) d
 
 /-- **C12 (round trip).** For every decorated program `d` — code lines with trailing hints in any
 tolerated spelling (`+` optional, `…`, several spaces, several hints per line), hints alone on a
@@ -43,11 +58,11 @@ and deletion on the same line — on such a tie the code closes the addition fir
 of the two openings on the line, which is the LIFO reading of `-L... L...` but not of `L... -L...`
 (`C12_roundtrip_needs_noTie`). -/
 theorem C12_roundtrip (d : List (Line × MarkerStyle)) (r : Str → List SSpan)
-    (hlines : linesOk (d.map Prod.fst) = true)
+    (hlines : (linesOk O) (d.map Prod.fst) = true)
     (hcode : (codeLines (normalised d)).isEmpty = false)
     (hbal : ∀ L, Bal (events (normalised d) L) (r L))
     (hnotie : ∀ L, noTie (events (normalised d) L) = true) :
-    ∃ p, getProgram (decorateS d) = .ok p ∧ p.source = stripPy (joinNL (base (normalised d))) ∧
+    ∃ p, (getProgram O) (decorateS d) = .ok p ∧ p.source = (stripPy O) (joinNL (base (normalised d))) ∧
       (∀ L s e, p.addition.count L (s, e) = (r L).count (false, s, e)) ∧
       (∀ L s e, p.deletion.count L (s, e) = (r L).count (true, s, e)) := by
   have hok := linesOk_of _ hlines
@@ -64,7 +79,7 @@ theorem C12_roundtrip (d : List (Line × MarkerStyle)) (r : Str → List SSpan)
         (mem_codeLines_iff _ c).mpr (hsub.subset ((mem_codeLines_iff _ c).mp (by rw [hc]; simp)))
       rw [e] at this; cases this
   have hprep := prepare_decorateS d hok hne1
-  have hy : Hyg (normalised d) := hyg_core2 (trimmed d) okt hwt hne2
+  have hy : (Hyg O) (normalised d) := hyg_core2 (trimmed d) okt hwt hne2
   obtain ⟨p, h1, h2, h3, h4⟩ :=
     getProgram_decorate (normalised d) r hy hbal (fun L => noTie_of _ (hnotie L))
   refine ⟨p, ?_, h2, fun L s e => h3 L (s, e), fun L s e => h4 L (s, e)⟩
@@ -76,8 +91,8 @@ theorem C12_roundtrip (d : List (Line × MarkerStyle)) (r : Str → List SSpan)
 /-- **C12 (marker spelling).** `# paroxython:` is neither space- nor case-sensitive: whatever the
 spelling of each marker, `get_program` answers as for the normalised spelling. -/
 theorem C12_marker_tolerance (d : List (Line × MarkerStyle))
-    (hlines : linesOk (d.map Prod.fst) = true) (hne : (codeLines (trimmed d)).isEmpty = false) :
-    getProgram (decorateS d) = getProgram (decorateS (d.map fun p => (p.1, {}))) := by
+    (hlines : (linesOk O) (d.map Prod.fst) = true) (hne : (codeLines (trimmed d)).isEmpty = false) :
+    (getProgram O) (decorateS d) = (getProgram O) (decorateS (d.map fun p => (p.1, {}))) := by
   have hne' : codeLines (trimmed d) ≠ [] := by simpa using hne
   have e : trimmed (d.map fun p => (p.1, ({} : MarkerStyle))) = trimmed d := by
     simp [trimmed, List.map_map, Function.comp_def]
@@ -85,6 +100,51 @@ theorem C12_marker_tolerance (d : List (Line × MarkerStyle))
   have h2 := prepare_decorateS (d.map fun p => (p.1, ({} : MarkerStyle)))
     (by simpa [List.map_map, Function.comp_def] using linesOk_of _ hlines) (by rw [e]; exact hne')
   rw [getProgram, getProgram, h1, h2, e]
+
+/-- **C12 (stored source).** The stored source of a decorated program is the stored source of the
+same program written without any hint (and `get_program` schedules nothing for the latter): "the
+stored source text [is that] of the program without the hint". No nesting hypothesis is needed. -/
+theorem C12_source_same (d : List (Line × MarkerStyle))
+    (hlines : (linesOk O) (d.map Prod.fst) = true)
+    (hcode : (codeLines (normalised d)).isEmpty = false)
+    (p : Program) (hp : (getProgram O) (decorateS d) = .ok p) :
+    (getProgram O) (joinNL (base (normalised d))) = .ok ⟨p.source, [], []⟩ := by
+  have hok := linesOk_of _ hlines
+  obtain ⟨okt, hwt⟩ := trimmed_ok d hok
+  have hne2 : codeLines (core2 (trimmed d)) ≠ [] := by simpa [normalised] using hcode
+  have hsub2 := core2_sublist (trimmed d)
+  have hne1 : codeLines (trimmed d) ≠ [] := by
+    intro e
+    apply hne2
+    cases hc : codeLines (core2 (trimmed d)) with
+    | nil => rfl
+    | cons c t =>
+      have : c ∈ codeLines (trimmed d) :=
+        (mem_codeLines_iff _ c).mpr (hsub2.subset ((mem_codeLines_iff _ c).mp (by rw [hc]; simp)))
+      rw [e] at this; cases this
+  have hy : (Hyg O) (normalised d) := hyg_core2 (trimmed d) okt hwt hne2
+  -- the stored source of the decorated text
+  have hprep := prepare_decorateS d hok hne1
+  have hp' : (getProgramFrom O) (decorate (normalised d)) = .ok p := by
+    rw [getProgram, hprep] at hp
+    unfold getProgramFrom at hp ⊢
+    rw [centrifugate_core2 (trimmed d) okt hwt hne2] at hp
+    exact hp
+  have hsrc := source_of_decorate (normalised d) hy p hp'
+  -- no look-alike of the marker in the code lines that are left
+  have hloose : ∀ c ∈ codeLines (normalised d), (noLoose O) c.code = true := by
+    intro c hc
+    have h1 : Line.code c ∈ trimmed d := hsub2.subset ((mem_codeLines_iff _ c).mp hc)
+    have h2 : Line.code c ∈ (d.map fun q => gap0 q.1) := (core_sublist _).subset h1
+    obtain ⟨q, hq, hg⟩ := List.mem_map.mp h2
+    cases hl : q.1 with
+    | isolated n L => rw [hl] at hg; simp [gap0] at hg
+    | code c0 =>
+      rw [hl] at hg
+      simp only [gap0, Line.code.injEq] at hg
+      have := (hok.loose q.1 (List.mem_map_of_mem (f := Prod.fst) hq)).code c0 hl
+      rw [← hg]; exact this.1
+  rw [getProgram_undecorated (normalised d) hy hloose, hsrc]
 
 /-- The executable reading of `Bal` used by the driver (`c12.spec_*`) is sound: the spans it
 returns are spans of a proper nesting. -/
@@ -153,7 +213,7 @@ def manualExample : List (Line × MarkerStyle) :=
 
 /-- Non-vacuity of `C12_roundtrip`: the example is hygienic, and its marks are properly nested
 (shown for the four labels it mentions; for every other label there is no mark at all). -/
-example : linesOk (manualExample.map Prod.fst) = true := by decide
+example : (linesOk asciiOracle) (manualExample.map Prod.fst) = true := by decide
 example : (codeLines (normalised manualExample)).isEmpty = false := by decide
 example : balSpans (events (normalised manualExample) "loop:for".toList) = some [(true, 1, 3)] := by decide
 example : balSpans (events (normalised manualExample) "amoeboid_protist".toList) = some [(false, 1, 3)] := by decide
@@ -169,7 +229,7 @@ for am in ifera: #  Paroxython :-loop:for... +amoeboid_protist...
     eat() # paroxython: ...loop:for …amoeboid_protist
 ⏎
 ``` -/
-example : getProgram (decorateS manualExample) = .ok
+example : (getProgram asciiOracle) (decorateS manualExample) = .ok
     ⟨"for am in ifera:\n    catch(a + b)\n    eat()".toList,
      [("concatenation_operator".toList, [(2, 2)]), ("amoeboid_protist".toList, [(1, 3)]),
       ("meta/topic/fun".toList, [(1, 3)])],
@@ -178,7 +238,7 @@ example : getProgram (decorateS manualExample) = .ok
 /-- **C12 (shape of a schedule).** Whatever the text, a schedule returned by `get_program` is a
 dictionary: label names are distinct, and each label's list of spans is sorted. Together with the
 counts of `C12_roundtrip` this determines `Program.addition` / `Program.deletion` completely. -/
-theorem C12_schedule_shape (src : Str) (p : Program) (h : getProgram src = .ok p) :
+theorem C12_schedule_shape (src : Str) (p : Program) (h : (getProgram O) src = .ok p) :
     (p.addition.map (·.1)).Nodup ∧ (p.deletion.map (·.1)).Nodup ∧
       (∀ e ∈ p.addition, e.2.Pairwise (fun a b => spanLe a b = true)) ∧
       (∀ e ∈ p.deletion, e.2.Pairwise (fun a b => spanLe a b = true)) := by
@@ -218,8 +278,8 @@ theorem C12_schedule_shape (src : Str) (p : Program) (h : getProgram src = .ok p
 /-- `noTie` cannot be dropped: here is the round-trip statement (normalised spellings) without it … -/
 def C12_roundtrip_without_noTie : Prop :=
   ∀ (d : Decorated) (r : Str → List SSpan),
-    (linesOk d && hygienic d) = true → (∀ L, Bal (events d L) (r L)) →
-    ∃ p, getProgram (decorate d) = .ok p ∧
+    ((linesOk asciiOracle) d && (hygienic asciiOracle) d) = true → (∀ L, Bal (events d L) (r L)) →
+    ∃ p, (getProgram asciiOracle) (decorate d) = .ok p ∧
       (∀ L s e, p.addition.count L (s, e) = (r L).count (false, s, e)) ∧
       (∀ L s e, p.deletion.count L (s, e) = (r L).count (true, s, e))
 
@@ -250,7 +310,7 @@ theorem C12_roundtrip_needs_noTie : ¬ C12_roundtrip_without_noTie := by
       · simp only [hL, if_true, r]
         exact .pair (u := [Ev.opn true 1, Ev.cls 2]) (w := []) (.pair (u := []) (w := []) .nil .nil) .nil
       · simp only [hL, if_false, r]; exact .nil)
-  have hreal : getProgram (decorate tieProgram) =
+  have hreal : (getProgram asciiOracle) (decorate tieProgram) =
       .ok ⟨['x', '\n', 'y', '\n', 'z'], [(foo, [(1, 2)])], [(foo, [(1, 3)])]⟩ := by rfl
   rw [hreal] at hp
   cases hp
@@ -265,20 +325,20 @@ theorem C12_roundtrip_needs_noTie : ¬ C12_roundtrip_without_noTie := by
 rejected by the token regex (or has the illegal form `...L...`), or for some label a closing mark
 has no opening mark still open before it, or an opening mark is never closed, then `get_program`
 raises `ValueError` — it never returns a schedule, and raises nothing else. -/
-theorem C12_malformed (src c : Str) (hc : centrifugate (prepare src) = .ok c) (hm : Malformed (hintToks c)) :
-    getProgram src = .error .valueError := by
+theorem C12_malformed (src c : Str) (hc : (centrifugate O) ((prepare O) src) = .ok c) (hm : (Malformed O) ((hintToks O) c)) :
+    (getProgram O) src = .error .valueError := by
   unfold getProgram getProgramFrom
   simp only [hc]
-  cases hcol : collectHints c with
+  cases hcol : (collectHints O) c with
   | ok r => exact absurd hm (collectToks_ok_not_malformed _ r hcol)
   | error e => rw [collectToks_error_value _ e hcol]
 
 /-- The only other exception of `get_program` is the `IndexError` of a text made only of hints
 alone on their line (no line is left to carry them): every error is one of the two. -/
-theorem C12_error_classes (src : Str) (e : Err) (h : getProgram src = .error e) :
-    e = .valueError ∨ (e = .indexError ∧ centrifugate (prepare src) = .error .indexError) := by
+theorem C12_error_classes (src : Str) (e : Err) (h : (getProgram O) src = .error e) :
+    e = .valueError ∨ (e = .indexError ∧ (centrifugate O) ((prepare O) src) = .error .indexError) := by
   unfold getProgram getProgramFrom at h
-  cases hc : centrifugate (prepare src) with
+  cases hc : (centrifugate O) ((prepare O) src) with
   | error e' =>
     simp only [hc] at h; cases h
     cases e
@@ -286,7 +346,7 @@ theorem C12_error_classes (src : Str) (e : Err) (h : getProgram src = .error e) 
     · exact Or.inr ⟨rfl, rfl⟩
   | ok c =>
     simp only [hc] at h
-    cases hcol : collectHints c with
+    cases hcol : (collectHints O) c with
     | ok r => obtain ⟨a, d⟩ := r; simp [hcol] at h
     | error e' =>
       simp only [hcol] at h; cases h
@@ -294,16 +354,25 @@ theorem C12_error_classes (src : Str) (e : Err) (h : getProgram src = .error e) 
 
 /-- The executable form the driver evaluates (`c12.spec_malformed`) is sound for the hypothesis
 above, so a `true` answer of the driver is an instance of the theorem. -/
-theorem C12_spec_malformed_sound (toks : List (Nat × Str)) (h : malformedB toks = true) : Malformed toks :=
+theorem C12_spec_malformed_sound (toks : List (Nat × Str)) (h : (malformedB O) toks = true) : (Malformed O) toks :=
   malformed_of_B toks h
 
 /-- Non-vacuity: an unmatched closing mark, a rejected token, a label opened for addition and
 deletion on one line and closed once (the `TypeError` of the unrepaired tree). -/
-example : malformedB (hintToks "x = 1 # paroxython: ...foo".toList) = true := by decide
-example : malformedB (hintToks "x = 1 # paroxython: +-foo".toList) = true := by decide
-example : getProgram "x = 1\n# paroxython: -foo".toList = .error .valueError := by rfl
-example : getProgram "a # paroxython: foo... -foo...\nb # paroxython: ...foo".toList = .error .valueError := by rfl
-example : getProgram "# paroxython: foo".toList = .error .indexError := by rfl
+example : (malformedB asciiOracle) ((hintToks asciiOracle) "x = 1 # paroxython: ...foo".toList) = true := by decide
+example : (malformedB asciiOracle) ((hintToks asciiOracle) "x = 1 # paroxython: +-foo".toList) = true := by decide
+example : (getProgram asciiOracle) "x = 1\n# paroxython: -foo".toList = .error .valueError := by rfl
+example : (getProgram asciiOracle) "a # paroxython: foo... -foo...\nb # paroxython: ...foo".toList = .error .valueError := by rfl
+example : (getProgram asciiOracle) "# paroxython: foo".toList = .error .indexError := by rfl
+
+/-- Beyond ASCII the answer depends on the oracle, as it does on the engine: with an oracle for which
+`é` is a word character `été` is scheduled, with one for which it is not the token is rejected;
+NBSP separates two tokens exactly when the oracle calls it white space. -/
+example : (getProgram ⟨fun c => c == 'é', fun _ => false⟩) "x = 1 # paroxython: été".toList =
+    .ok ⟨"x = 1".toList, [("été".toList, [(1, 1)])], []⟩ := by rfl
+example : (getProgram asciiOracle) "x = 1 # paroxython: été".toList = .error .valueError := by rfl
+example : (getProgram ⟨fun _ => false, fun c => c == '\u00a0'⟩) "x = 1 # paroxython: a\u00a0b".toList =
+    .ok ⟨"x = 1".toList, [("a".toList, [(1, 1)]), ("b".toList, [(1, 1)])], []⟩ := by rfl
 
 /-! ## Scheduled deletions and additions in the parser -/
 
@@ -336,6 +405,26 @@ theorem C12_sql_stage_exact (del : Sched) (hnd : (keys del).Nodup) (derived : Li
   simp only [sqlStage]
   rw [group_count, a, b]
   exact ⟨rfl, rfl, by rw [hk]; exact hnd⟩
+
+/-- **C12 (deletion exact), all the stages together.** Over the regex stage and every SQL stage
+(whatever SQLite derived at each of them): the labels returned hold, for every name and range, the
+occurrences computed at all the stages, minus one per scheduled deletion of exactly that name and
+range as far as there are occurrences — whichever stage they show up at —, plus the scheduled
+additions; what is left of the schedule is what found no occurrence at any stage. -/
+theorem C12_all_stages_exact (del add : Sched) (hnd : (keys del).Nodup) (computed : List Occ)
+    (derived : List (List Occ)) (n : Str) (x : Nat × Nat) :
+    Labels.count (parse del add computed derived).1 n x =
+        ((occCount computed n x + derivedCount derived n x) - Sched.count del n x) + Sched.count add n x ∧
+      Sched.count (parse del add computed derived).2 n x =
+        Sched.count del n x - (occCount computed n x + derivedCount derived n x) := by
+  obtain ⟨hk, h⟩ := stage_count computed del hnd
+  have hnd' : (keys (regexStage del add computed).2).Nodup := by simp only [regexStage]; rw [hk]; exact hnd
+  obtain ⟨_, hf⟩ := stages_fold_count derived (regexStage del add computed).1 (regexStage del add computed).2 hnd'
+  obtain ⟨a, b⟩ := hf n x
+  obtain ⟨c1, c2⟩ := C12_deletion_exact del add hnd computed n x
+  simp only [parse]
+  rw [a, b, c1, c2]
+  omega
 
 /-- **C12 (other labels untouched).** A name no deletion hint mentions keeps every computed
 occurrence, paths included, in the computed order; and the loop never invents an occurrence. -/
